@@ -145,10 +145,20 @@ def canonicalise(F):
     if pp_classes:
         if not full:
             raise Broken("PPolyND roles: no fully instantiated PPolyND in the witness set")
-        roles = ppoly_roles(F, E, sorted(full)[0])
-        for other in full[1:]:
-            if ppoly_roles(F, E, other) != roles:
-                raise Broken("PPolyND roles differ between instantiations")
+        canon_names = ("breakpoints_", "coefficients_", "num_coeffs_", "num_segments_", "is_initialized_", "derivative_coeffs_", "derivative_factor_table_",
+                       "derivative_factor_table_ready_", "derivative_coeffs_ready_")
+        try:
+            roles = ppoly_roles(F, E, sorted(full)[0])
+            for other in full[1:]:
+                if ppoly_roles(F, E, other) != roles:
+                    raise Broken("PPolyND roles differ between instantiations")
+        except Broken:
+            # the roles could not be read off (the code no longer has the shape the discovery expects - that is for the
+            # rules to judge).  If the members still carry the names the rules were written with, nothing needs renaming.
+            names0 = {fl["name"] for fl in F.record(sorted(full)[0])["fields"]}
+            if set(canon_names) <= names0:
+                return F
+            raise
         a2c = {a: c for c, a in roles.items()}
         if any(a != c for a, c in a2c.items()):
             for cls in pp_classes:
